@@ -28,13 +28,17 @@ def forced_classes(rng, n):
     out = []
     pool = [K(i) for i in range(1, 9)] + [N(i) for i in range(1, 9)]
     for _ in range(n):
-        kind = rng.choice(["union_order", "hidden_join", "recreate", "identity_join", "shared_leaf", "dedup_proj", "window_then", "window_then", "mutual_hidden"])
+        kind = rng.choice(["union_order", "hidden_join", "recreate", "identity_join", "shared_leaf", "dedup_proj", "window_then", "window_then", "mutual_hidden", "self_join", "compound_order"])
         if kind == "dedup_proj":
             p = sp.dedup_then_project(rng)
         elif kind == "window_then":
             p, _c = sp.windowed_then_op(rng)
         elif kind == "mutual_hidden":
             p = sp.mutual_hidden_join(rng)
+        elif kind == "self_join":
+            p = sp.self_join(rng)
+        elif kind == "compound_order":
+            p, _c = sp.compound_order_cases(rng)
         elif kind == "shared_leaf":
             # the SAME leaf object under a calculation and, elsewhere in the tree, as a join operand next to a relation
             # that really has a column of the calculated tag (compiling one branch must not leak into the other)
